@@ -19,6 +19,9 @@ type Term struct {
 	// Decl: "token" (a %token line), "prec" (only named on a precedence line),
 	// "use" (literal that only occurs in rules)
 	Decl string `json:"decl"`
+	// Redecl: declared once without and once more with its explicit number
+	// (as examples/*.y do: %token <val> NUM ... %token NUM 100)
+	Redecl bool `json:"redecl,omitempty"`
 }
 
 func (t Term) IsLit() bool { return t.Lit != "" }
@@ -73,6 +76,7 @@ type Spec struct {
 	Union    string      `json:"union"`    // text between %union { and }
 	Epilogue string      `json:"epilogue"` // text after the second %%
 	NoUnion  bool        `json:"nounion,omitempty"`
+	Fields   []string    `json:"fields,omitempty"` // abstract union fields (integers)
 }
 
 func (s *Spec) NT() int { return len(s.Terms) }
@@ -265,11 +269,19 @@ func (s *Spec) Render(o RenderOpts) string {
 		}
 		for _, t := range pending {
 			termTok(t)
-			if t.Code != 0 && !t.IsLit() {
+			if t.Code != 0 && !t.IsLit() && !t.Redecl {
 				w(fmt.Sprint(t.Code))
 			}
 		}
 		nl()
+		for _, t := range pending {
+			if t.Redecl && t.Code != 0 && !t.IsLit() {
+				w("%token")
+				w(t.Name)
+				w(fmt.Sprint(t.Code))
+				nl()
+			}
+		}
 		pending = nil
 	}
 	for _, t := range s.Terms {
